@@ -52,6 +52,12 @@ class Run:
         self.crashes: list[str] = []
         self.known = [k for k in load_known() if k["property"] == prop and k["kind"] == "finding"]
         self.n_replay = 0
+        import glob
+        for old_file in glob.glob(os.path.join(HERE, "replays", f"{prop}_{tier}_*.json")):
+            try:
+                os.unlink(old_file)
+            except OSError:
+                pass
         self.cov: dict[str, Any] = {}
         self.assumptions: list[str] = []
 
